@@ -2,24 +2,29 @@ import QmiModel.Model.Pipeline
 import Drv.Common
 /-!
 Driver for C03: replays an event log of the real request path on `QmiModel.Pipeline`.
+Requests are written `c k o r` (caller thread, proxy context, object, issue number on that route).
 
     init                      reset (new scenario)
-    thread c k                caller thread c lives in context k
-    object o k                object o lives in context k
+    thread c / ctx k          declare a caller thread / a context (for the invariant evaluation)
+    object o d                object o lives in context d
     start o w                 RpcObjectManager.start created worker thread w for o
-    issue c o r               caller c entered the proxy call (request r for o)
-    enqL c o r                c's own thread appended the request to o's fifo            -> ok fifo=<fifo o> inv
-    enqR c o r                c's thread queued the send on its context's event loop      -> ok ready=<ready (ctx c)> inv
-    send k c o r              event loop of k put the request on the wire                 -> ok inv
-    deliver k d c o r         event loop of d took it off the wire k->d, appended to fifo -> ok fifo=<fifo o> inv
-    pop w o c r               thread w took the request from o's fifo                     -> ok fifo=<fifo o> inv
-    enter w o c r / exit …    observation: thread w is inside the method for request r    -> ok
-    finish w o c r            thread w finished handling the request                      -> ok inv
-    final o                   -> executed=<executed o> by=<execBy o>
+    issue c k o r             caller c entered a proxy call
+    lookL c k o r             c's own thread looked the handler up          -> ok held inv | ok refused inv
+    pushL c k o r             … handle_message: enqueue or "already stopped" -> ok fifo=<fifo o> inv | ok refused inv
+    enqR c k o r              c's thread queued the send on k's event loop   -> ok ready=<ready k> inv
+    send k c k o r            event loop of k put the request on the wire    -> ok inv
+    lookW k d c k o r         event loop of d took it off the wire k->d, handler lookup -> ok held inv | ok refused inv
+    pushW d c k o r           … handle_message in the loop thread of d       -> ok fifo=<fifo o> inv | ok refused inv
+    pop w o c k r             thread w took the request from o's fifo        -> ok fifo=<fifo o> inv
+    enter w o c k r / exit …  observation: thread w is executing request r   -> ok
+    finish w o c k r          thread w finished handling the request         -> ok inv
+    unreg o / stopmark o / shutdown o / leave w o                            -> ok inv
+    reject w o c k r          _reject_remaining_requests took it from the fifo -> ok fifo=<fifo o> inv
+    final o                   -> executed=… by=… cur=… rejected=… refused=…
 
 Every event must be *enabled* (`step … = some _`) and name the request the model has at that position; otherwise the
 answer is `not-enabled:<why>` and the state is unchanged.  After every state change the pipeline invariant
-(`fifo_pipeline`) is evaluated for every declared (caller, object) pair: `inv` / `inv-broken`.
+(`fifo_pipeline`) is evaluated for every declared (caller, context, object) triple: `inv` / `inv-broken`.
 -/
 open QmiModel.Pipeline
 
@@ -27,22 +32,26 @@ structure DS where
   T  : Topo
   s  : State
   cs : List Nat
+  ks : List Nat
   os : List Nat
 
-def DS.empty : DS := { T := { ctxOf := fun _ => 0, home := fun _ => 0 }, s := init, cs := [], os := [] }
+def DS.empty : DS := { T := { home := fun _ => 0 }, s := init, cs := [], ks := [], os := [] }
 
 def showReqs (l : List Req) : String :=
-  if l.isEmpty then "-" else ",".intercalate (l.map fun x => s!"{x.caller}:{x.obj}:{x.id}")
+  if l.isEmpty then "-" else ",".intercalate (l.map fun x => s!"{x.caller}:{x.via}:{x.obj}:{x.id}")
 
 def showNats (l : List Nat) : String :=
   if l.isEmpty then "-" else ",".intercalate (l.map toString)
 
 def invOk (d : DS) : Bool :=
-  d.cs.all fun c => d.os.all fun o => (stages d.T d.s c o).filter (sel c o) == issuedBy d.s c o
+  d.cs.all fun c => d.ks.all fun k => d.os.all fun o =>
+    (stages d.T d.s c k o).filter (sel c k o) == issuedBy d.s c k o
 
 def invTag (d : DS) : String := if invOk d then "inv" else "inv-broken"
 
 def nats (ws : List String) : Option (List Nat) := ws.mapM String.toNat?
+
+def addNat (l : List Nat) (n : Nat) : List Nat := if l.contains n then l else l ++ [n]
 
 /-- apply an action; `why` names the guard that failed when it is not enabled -/
 def act (d : DS) (a : Act) (why : String) (extra : DS → String) : DS × String :=
@@ -50,75 +59,120 @@ def act (d : DS) (a : Act) (why : String) (extra : DS → String) : DS × String
   | some s' => let d' := { d with s := s' }; (d', s!"ok{extra d'} {invTag d'}")
   | none => (d, s!"not-enabled:{why}")
 
+/-- after a delivery step: was the request appended to the fifo / held, or refused? -/
+def fate (before : DS) (x : Req) (d' : DS) : String :=
+  if (d'.s.refused x.obj).length > (before.s.refused x.obj).length then " refused"
+  else if (d'.s.fifo x.obj).length > (before.s.fifo x.obj).length then s!" fifo={showReqs (d'.s.fifo x.obj)}"
+  else " held"
+
 def stepLine (d : DS) (line : String) : DS × String :=
   match line.splitOn " " with
   | ["init"] => (DS.empty, "ok")
-  | "thread" :: ws =>
-    match nats ws with
-    | some [c, k] => ({ d with T := { d.T with ctxOf := upd d.T.ctxOf c k }, cs := if d.cs.contains c then d.cs else d.cs ++ [c] }, "ok")
+  | ["thread", c] => match c.toNat? with
+    | some c => ({ d with cs := addNat d.cs c }, "ok")
+    | none => (d, "bad-op")
+  | ["ctx", k] => match k.toNat? with
+    | some k => ({ d with ks := addNat d.ks k }, "ok")
+    | none => (d, "bad-op")
+  | ["object", o, h] =>
+    match nats [o, h] with
+    | some [o, h] => ({ d with T := { home := upd d.T.home o h }, os := addNat d.os o, ks := addNat d.ks h }, "ok")
     | _ => (d, "bad-op")
-  | "object" :: ws =>
-    match nats ws with
-    | some [o, k] => ({ d with T := { d.T with home := upd d.T.home o k }, os := if d.os.contains o then d.os else d.os ++ [o] }, "ok")
-    | _ => (d, "bad-op")
-  | "start" :: ws =>
-    match nats ws with
+  | ["start", o, w] =>
+    match nats [o, w] with
     | some [o, w] => act d (.start o w) "second-worker" (fun _ => "")
     | _ => (d, "bad-op")
-  | "issue" :: ws =>
-    match nats ws with
-    | some [c, o, r] =>
-      if (d.s.hand c).isSome then (d, "not-enabled:previous-call-still-in-hand")
-      else act d (.issue c o r) "duplicate-request" (fun _ => "")
+  | ["issue", c, k, o, r] =>
+    match nats [c, k, o, r] with
+    | some [c, k, o, r] =>
+      if (d.s.hand c).isSome || (d.s.heldC c).isSome then (d, "not-enabled:previous-call-still-in-hand")
+      else act d (.issue c k o r) "duplicate-request" (fun _ => "")
     | _ => (d, "bad-op")
-  | "enqL" :: ws =>
-    match nats ws with
-    | some [c, o, r] =>
-      if d.s.hand c != some ⟨c, o, r⟩ then (d, "not-enabled:not-in-hand")
-      else act d (.enqLocal c) "route-not-local" (fun d' => s!" fifo={showReqs (d'.s.fifo o)}")
+  | ["lookL", c, k, o, r] =>
+    match nats [c, k, o, r] with
+    | some [c, k, o, r] =>
+      if d.s.hand c != some ⟨c, k, o, r⟩ then (d, "not-enabled:not-in-hand")
+      else act d (.lookupLocal c) "route-not-local" (fate d ⟨c, k, o, r⟩)
     | _ => (d, "bad-op")
-  | "enqR" :: ws =>
-    match nats ws with
-    | some [c, o, r] =>
-      if d.s.hand c != some ⟨c, o, r⟩ then (d, "not-enabled:not-in-hand")
-      else act d (.enqRemote c) "route-not-remote" (fun d' => s!" ready={showReqs (d'.s.ready (d'.T.ctxOf c))}")
+  | ["pushL", c, k, o, r] =>
+    match nats [c, k, o, r] with
+    | some [c, k, o, r] =>
+      if d.s.heldC c != some ⟨c, k, o, r⟩ then (d, "not-enabled:handler-not-looked-up")
+      else act d (.pushLocal c) "nothing-held" (fate d ⟨c, k, o, r⟩)
     | _ => (d, "bad-op")
-  | "send" :: ws =>
-    match nats ws with
-    | some [k, c, o, r] =>
-      if (d.s.ready k).head? != some ⟨c, o, r⟩ then (d, "not-enabled:not-head-of-ready-queue")
-      else act d (.loopRun k) "ready-queue-empty" (fun _ => "")
+  | ["enqR", c, k, o, r] =>
+    match nats [c, k, o, r] with
+    | some [c, k, o, r] =>
+      if d.s.hand c != some ⟨c, k, o, r⟩ then (d, "not-enabled:not-in-hand")
+      else act d (.enqRemote c) "route-not-remote" (fun d' => s!" ready={showReqs (d'.s.ready k)}")
     | _ => (d, "bad-op")
-  | "deliver" :: ws =>
-    match nats ws with
-    | some [k, dd, c, o, r] =>
-      if (d.s.wire k dd).head? != some ⟨c, o, r⟩ then (d, "not-enabled:not-head-of-wire")
-      else act d (.wireDeliver k dd) "wire-empty" (fun d' => s!" fifo={showReqs (d'.s.fifo o)}")
+  | ["send", kk, c, k, o, r] =>
+    match nats [kk, c, k, o, r] with
+    | some [kk, c, k, o, r] =>
+      if (d.s.ready kk).head? != some ⟨c, k, o, r⟩ then (d, "not-enabled:not-head-of-ready-queue")
+      else act d (.loopRun kk) "ready-queue-empty" (fun _ => "")
     | _ => (d, "bad-op")
-  | "pop" :: ws =>
-    match nats ws with
-    | some [w, o, c, r] =>
+  | ["lookW", kk, dd, c, k, o, r] =>
+    match nats [kk, dd, c, k, o, r] with
+    | some [kk, dd, c, k, o, r] =>
+      if (d.s.wire kk dd).head? != some ⟨c, k, o, r⟩ then (d, "not-enabled:not-head-of-wire")
+      else act d (.lookupWire kk dd) "loop-thread-busy" (fate d ⟨c, k, o, r⟩)
+    | _ => (d, "bad-op")
+  | ["pushW", dd, c, k, o, r] =>
+    match nats [dd, c, k, o, r] with
+    | some [dd, c, k, o, r] =>
+      if d.s.heldL dd != some ⟨c, k, o, r⟩ then (d, "not-enabled:handler-not-looked-up")
+      else act d (.pushWire dd) "nothing-held" (fate d ⟨c, k, o, r⟩)
+    | _ => (d, "bad-op")
+  | ["pop", w, o, c, k, r] =>
+    match nats [w, o, c, k, r] with
+    | some [w, o, c, k, r] =>
       if d.s.worker o != some w then (d, "not-enabled:not-the-worker")
       else if (d.s.cur o).isSome then (d, "not-enabled:worker-busy")
-      else if (d.s.fifo o).head? != some ⟨c, o, r⟩ then (d, "not-enabled:not-head-of-fifo")
+      else if d.s.shutdown o then (d, "not-enabled:shutdown-requested")
+      else if (d.s.fifo o).head? != some ⟨c, k, o, r⟩ then (d, "not-enabled:not-head-of-fifo")
       else act d (.workerPop w o) "fifo-empty" (fun d' => s!" fifo={showReqs (d'.s.fifo o)}")
     | _ => (d, "bad-op")
-  | [tag, w, o, c, r] =>
-    match nats [w, o, c, r] with
-    | some [w, o, c, r] =>
+  | ["reject", w, o, c, k, r] =>
+    match nats [w, o, c, k, r] with
+    | some [w, o, c, k, r] =>
+      if d.s.worker o != some w then (d, "not-enabled:not-the-worker")
+      else if !d.s.left o then (d, "not-enabled:worker-still-in-loop")
+      else if (d.s.fifo o).head? != some ⟨c, k, o, r⟩ then (d, "not-enabled:not-head-of-fifo")
+      else act d (.rejectOne w o) "fifo-empty" (fun d' => s!" fifo={showReqs (d'.s.fifo o)}")
+    | _ => (d, "bad-op")
+  | [tag, w, o, c, k, r] =>
+    match nats [w, o, c, k, r] with
+    | some [w, o, c, k, r] =>
       if tag == "enter" || tag == "exit" then
         if d.s.worker o != some w then (d, "not-enabled:not-the-worker")
-        else if d.s.cur o != some ⟨c, o, r⟩ then (d, "not-enabled:not-the-current-request")
+        else if d.s.cur o != some ⟨c, k, o, r⟩ then (d, "not-enabled:not-the-current-request")
         else (d, "ok")
       else if tag == "finish" then
         if d.s.worker o != some w then (d, "not-enabled:not-the-worker")
-        else if d.s.cur o != some ⟨c, o, r⟩ then (d, "not-enabled:not-the-current-request")
+        else if d.s.cur o != some ⟨c, k, o, r⟩ then (d, "not-enabled:not-the-current-request")
         else act d (.workerFinish w o) "idle" (fun _ => "")
       else (d, "bad-op")
     | _ => (d, "bad-op")
+  | ["unreg", o] => match o.toNat? with
+    | some o => act d (.unregister o) "-" (fun _ => "")
+    | none => (d, "bad-op")
+  | ["stopmark", o] => match o.toNat? with
+    | some o => act d (.stopMark o) "-" (fun _ => "")
+    | none => (d, "bad-op")
+  | ["shutdown", o] => match o.toNat? with
+    | some o => act d (.shutdownReq o) "still-running" (fun _ => "")
+    | none => (d, "bad-op")
+  | ["leave", w, o] =>
+    match nats [w, o] with
+    | some [w, o] =>
+      if d.s.worker o != some w then (d, "not-enabled:not-the-worker")
+      else if (d.s.cur o).isSome then (d, "not-enabled:worker-busy")
+      else act d (.workerLeave w o) "no-shutdown-requested" (fun _ => "")
+    | _ => (d, "bad-op")
   | ["final", o] =>
     match o.toNat? with
-    | some o => (d, s!"executed={showReqs (d.s.executed o)} by={showNats (d.s.execBy o)} cur={showReqs (d.s.cur o).toList}")
+    | some o => (d, s!"executed={showReqs (d.s.executed o)} by={showNats (d.s.execBy o)} cur={showReqs (d.s.cur o).toList} rejected={showReqs (d.s.rejected o)} refused={showReqs (d.s.refused o)}")
     | none => (d, "bad-op")
   | _ => (d, "bad-op")
 
